@@ -271,9 +271,10 @@ fn main() {
         let n: u64 = (args[3].parse::<f64>().expect("millions") * 1e6) as u64;
         let libr = fips204_verif::libapi::lib(p.id);
         let xis: Vec<[u8; 32]> = (0..4u64).map(|k| fips204_verif::gen::Seed32::Uniform(k).bytes()).collect();
-        let keys: Vec<_> = xis.iter().map(|xi| libr.keygen_from_seed(xi).1).collect();
+        // (key bytes, re-imported per call: key objects are not assumed to be shareable between threads)
+        let keys: Vec<Vec<u8>> = xis.iter().map(|xi| libr.keygen_from_seed(xi).1.to_bytes()).collect();
         let sign = |xi: &[u8; 32], m: &[u8], rnd: &[u8; 32]| -> Option<Vec<u8>> {
-            let k = &keys[xis.iter().position(|x| x == xi).expect("key index")];
+            let k = libr.sk_from_bytes(&keys[xis.iter().position(|x| x == xi).expect("key index")]).ok()?;
             let mut rng = fips204_verif::libapi::TestRng::replay(rnd);
             k.sign(&mut rng, m, &[], refmodel::Mode::Pure).ok()
         };
